@@ -585,6 +585,12 @@ class CPreProcessor:
                     # Do macro expansion on the argument:
                     replacement = self.expand_token_sequence(replacement)
                 replacement = self.copy_tokens(replacement, token.space)
+                if used_in_concat and not replacement:
+                    # An empty argument as operand of '##' is a placemarker
+                    # (C11 6.10.3.3p2):
+                    replacement = [
+                        CToken("PLACEMARKER", "", token.space, False, token.loc)
+                    ]
                 new_line.extend(replacement)
             else:
                 new_line.append(token)
@@ -631,6 +637,12 @@ class CPreProcessor:
 
     def concat(self, lhs, rhs):
         """Concatenate two tokens"""
+        # A placemarker glued to a token gives that token:
+        if rhs.typ == "PLACEMARKER":
+            return lhs
+        elif lhs.typ == "PLACEMARKER":
+            return rhs.copy(space=lhs.space, first=lhs.first)
+
         total_text = lhs.val + rhs.val
 
         # Invoke the lexer again on glued text to produce tokens:
@@ -649,7 +661,8 @@ class CPreProcessor:
             while le.has_consumed("##"):
                 rhs = le.consume()
                 lhs = self.concat(lhs, rhs)
-            glue_line.append(lhs)
+            if lhs.typ != "PLACEMARKER":
+                glue_line.append(lhs)
         return glue_line
 
     def make_newline_token(self, line):
